@@ -53,7 +53,11 @@ def _cases(prop):
         return [(_pu().vb_scale, (vbx, par, wid, hgt), None)
                 for vbx in ("0 0 100 50", "-5,0,1,1", None, "0 0 x 1")
                 for par in (None, "none", "xMinYMax slice", "defer xMaxYMid")
-                for wid, hgt in ((200, 200), (30, 20))]
+                for wid, hgt in ((200, 200), (30, 20))] + \
+            [(_pu().vb_scale, (vbx, par, wid, hgt), None)          # sizes that must give identity
+             for vbx, wid, hgt in (("0 0 0 50", 10, 10), ("0 0 100 -5", 10, 10), ("0 0 10 10", 0, 5),
+                                   ("0 0 10 10", 5, -1), ("1 2 3", 10, 10), ("0 0 -4 -4", -8, -8))
+             for par in (None, "none", "xMidYMid slice")]
     if prop == "C12":
         out = [(_pu().parseLengthWithUnits, (txt,), None)
                for txt in ("12.5mm", " 3in ", "7", "5em", "", "1e-3pt", "50%", None)]
@@ -196,7 +200,7 @@ def _plain(entry, variant):
 
 
 VARIANTS = ("mixed", "decimal:prec6", "decimal:round_down", "decimal:traps_inexact",
-            "result_edited", "answer_kept", "warnings_error")
+            "result_edited", "answer_kept", "warnings_error", "thread")
 
 
 def _scribble(obj):
@@ -278,7 +282,34 @@ def _warnings_as_errors(entry):
     return None
 
 
+def _from_a_thread(entry):
+    """The same positional call made from a thread that did not import the library, with the
+    caller's mpmath precision low when that thread starts (state kept per thread is set up for
+    the importing thread only)."""
+    import threading                        # pylint: disable=import-outside-toplevel
+    import mpmath                           # pylint: disable=import-outside-toplevel
+    base = _plain(entry, "plain")
+    box = []
+    saved = mpmath.mp.prec
+    mpmath.mp.dps = 5
+    try:
+        worker = threading.Thread(target=lambda: box.append(_plain(entry, "plain")))
+        worker.start()
+        worker.join()
+    finally:
+        mpmath.mp.prec = saved
+    other = box[0] if box else ("no result",)
+    if base != other and repr(base) != repr(other):
+        name = getattr(entry[1] if entry[0] == "pair" else entry[0], "__name__", "call")
+        args = entry[2] if entry[0] == "pair" else entry[1]
+        return (f"{name}{tuple(args)!r} called from a fresh thread (ambient mpmath precision 5 "
+                f"digits) gives {other!r}; from the importing thread {base!r}")[:700]
+    return None
+
+
 def _run_variant(entry, variant, follower=None):
+    if variant == "thread":
+        return _from_a_thread(entry)
     if variant == "result_edited":
         return _edited_result(entry)
     if variant == "answer_kept":
@@ -311,9 +342,64 @@ def _variants(prop):
     return VARIANTS + tuple(f"setting:{n}:{f}" for n in names for f in ("0.9375", "0.75", "1.25"))
 
 
+def plain_outcomes(prop):
+    """repr of the outcome of every representative call of a property, in order."""
+    return [repr(_plain(entry, "plain")) for entry in _cases(prop)]
+
+
+_INTERPRETERS = (("-O",), ("-OO",))
+
+
+def _other_interpreter(prop, flags):
+    """The same calls in a child interpreter started with the given flags (-O strips assert
+    statements and `if __debug__:` blocks, -OO docstrings too): outcomes must not depend on how
+    the interpreter was started.  Returns the list of outcome reprs, or a string on failure."""
+    import json                             # pylint: disable=import-outside-toplevel
+    import os                               # pylint: disable=import-outside-toplevel
+    import subprocess                       # pylint: disable=import-outside-toplevel
+    import sys                              # pylint: disable=import-outside-toplevel
+    root = os.path.dirname(os.path.dirname(os.path.abspath(__file__)))
+    code = ("import sys, json; sys.path.insert(0, %r); import mc; mc.bind_repo(); "
+            "from mc import callforms; print('OUTCOMES' + json.dumps(callforms.plain_outcomes(%r)))"
+            % (root, prop))
+    proc = subprocess.run([sys.executable, *flags, "-c", code], capture_output=True, text=True,
+                          check=False, timeout=600)
+    for line in proc.stdout.splitlines():
+        if line.startswith("OUTCOMES"):
+            return json.loads(line[len("OUTCOMES"):])
+    return "child interpreter failed: " + (proc.stderr or proc.stdout)[-300:]
+
+
+def _interpreter_cases(prop, only=None):
+    """[(number, flags, message)] for every representative call whose outcome changes."""
+    here = plain_outcomes(prop)
+    out = []
+    cases = _cases(prop)
+    for flags in _INTERPRETERS:
+        there = _other_interpreter(prop, flags)
+        if isinstance(there, str):
+            raise RuntimeError(there)
+        for number, (mine, theirs) in enumerate(zip(here, there)):
+            if mine != theirs and (only is None or only == (number, list(flags))):
+                entry = cases[number]
+                name = getattr(entry[1] if entry[0] == "pair" else entry[0], "__name__", "call")
+                args = entry[2] if entry[0] == "pair" else entry[1]
+                out.append((number, list(flags),
+                            (f"{name}{tuple(args)!r} gives {theirs} in an interpreter started with "
+                             f"{' '.join(flags)}; otherwise {mine}")[:700]))
+    return out
+
+
 def explore(prop):
     part = core.Part()
     cases = _cases(prop)
+    if cases:
+        for number, flags, msg in _interpreter_cases(prop):
+            part.violation(f"callform:{prop}:{number}:interpreter{''.join(flags)}", msg,
+                           {"kind": "callform", "prop": prop, "number": number,
+                            "variant": "interpreter", "flags": flags})
+        part.count("call_form_cases", len(cases) * len(_INTERPRETERS))
+        part.count("interpreter_flag_cases", len(cases) * len(_INTERPRETERS))
     for number, entry in enumerate(cases):
         follower = cases[(number + 1) % len(cases)]
         msg = _run(entry)
@@ -335,5 +421,8 @@ def replay(case):
     cases = _cases(case["prop"])
     entry = cases[case["number"]]
     follower = cases[(case["number"] + 1) % len(cases)]
+    if case.get("variant") == "interpreter":
+        return [m for _n, _f, m in _interpreter_cases(case["prop"],
+                                                      (case["number"], list(case["flags"])))]
     msg = _run_variant(entry, case["variant"], follower) if case.get("variant") else _run(entry)
     return [msg] if msg else []
